@@ -95,6 +95,10 @@ pub(super) async fn run_pipes_task(handle: &TaskHandle, ctx: TaskRunContext) {
             }
         };
     }
+    // provider credentials stay with the authority; an explicit `env` of the task still applies
+    for name in rip_tools::secret_env_names() {
+        cmd.env_remove(name);
+    }
     if let Some(envs) = &args.env {
         cmd.envs(envs);
     }
